@@ -640,8 +640,12 @@ class UnitsContainer(Mapping[str, Scalar]):
             raise TypeError(err.format(type(other)))
 
         new = self.copy()
-        for key, value in new._d.items():
-            new._d[key] *= other
+        for key, value in self._d.items():
+            new_value = value * other
+            if new_value == 0:
+                del new._d[key]
+            else:
+                new._d[key] = new_value
         new._hash = None
         return new
 
@@ -866,6 +870,8 @@ class ParserHelper(UnitsContainer):
         d = self._d.copy()
         for key in self._d:
             d[key] *= other
+            if d[key] == 0:
+                del d[key]
         return self.__class__(self.scale**other, d, non_int_type=self._non_int_type)
 
     def __truediv__(self, other):
